@@ -392,6 +392,20 @@ class Gen:
                 A[i][j] = A[j][i]
         return A
 
+    def spd_parts(self, n, cond, scale):
+        """(U, lam): orthogonal rows U[k] and eigenvalues lam[k] (decreasing) of U^T diag(lam) U"""
+        lam = [scale * cond ** (-(i / (n - 1)) if n > 1 else 0) for i in range(n)]
+        return self.orth(n), lam
+
+    @staticmethod
+    def assemble(U, lam):
+        n = len(lam)
+        A = [[sum(U[k][i] * lam[k] * U[k][j] for k in range(n)) for j in range(n)] for i in range(n)]
+        for i in range(n):
+            for j in range(i):
+                A[i][j] = A[j][i]
+        return A
+
     def spd_dyadic(self, n, bits=4):
         """exactly representable SPD: B B^T + D with small dyadic entries"""
         B = [[self.dyadic(-2, 2, bits) for _ in range(n)] for _ in range(n)]
